@@ -323,6 +323,29 @@ RECURSIVE AscFrom(_, _, _)
 AscFrom(t, i, acc) == IF i > t.mask THEN acc ELSE AscFrom(t, i + 1, IF IsFull(t.ctrl[i]) THEN Append(acc, i) ELSE acc)
 AscFull(t) == IF t.mask = 0 THEN <<>> ELSE AscFrom(t, 0, <<>>)
 
+(* clone :3154, clone_from :3187, clone_from_impl :3290.  pc = index of the ELEMENT clone that panics (0 = never).
+   Clones get identity 0 (identities are compared separately).  Result: [t, st, made, undone]:
+   made = clones created, undone = clones dropped again by the inner scope guard. *)
+CloneElem(e) == <<e[1], 0, e[3], 0, e[5], e[6]>>
+RECURSIVE CloneLoop(_, _, _, _, _)
+CloneLoop(dst, src, idxs, n, pc) ==
+  IF idxs = <<>> THEN [t |-> [dst EXCEPT !.items = src.items, !.gl = src.gl], st |-> "ok", made |-> n, undone |-> 0]   \* counters copied last
+  ELSE IF pc # 0 /\ n + 1 = pc THEN [t |-> dst, st |-> "unwound", made |-> n, undone |-> n]   \* guard drops buckets 0..index of the clones made
+  ELSE CloneLoop([dst EXCEPT !.data[Head(idxs)] = CloneElem(src.data[Head(idxs)])], src, Tail(idxs), n + 1, pc)
+\* new_uninitialized(same buckets) + control bytes copied verbatim (tombstones included) + elements cloned slot by slot
+CloneFromImpl(src, pc) ==
+  CloneLoop([NewTable(src.mask + 1, src.es) EXCEPT !.ctrl = src.ctrl], src, AscFull(src), 0, pc)
+\* RawTable::clone: a panic drops the half-built table (items is still 0, so only the block is freed)
+CloneTable(src, pc) ==
+  IF src.mask = 0 THEN [t |-> Singleton(src.es), st |-> "ok", made |-> 0, undone |-> 0] ELSE CloneFromImpl(src, pc)
+\* RawTable::clone_from: source unallocated => become the singleton; otherwise drop the own elements, reallocate iff the
+\* bucket counts differ, clone_from_impl; on a panic the outer guard leaves the target empty (clear_no_drop)
+CloneFrom(dst, src, pc) ==
+  IF src.mask = 0 THEN [t |-> Singleton(dst.es), st |-> "ok", made |-> 0, undone |-> 0]
+  ELSE LET r == CloneFromImpl(src, pc)
+       IN IF r.st = "ok" THEN r ELSE [r EXCEPT !.t = NewTable(src.mask + 1, dst.es)]
+
+---------------------------------------------------------------------------
 (* retain :  iterate the buckets that were FULL at creation, erase the rejected ones as they are yielded *)
 RECURSIVE EraseSeq(_, _, _)
 EraseSeq(t, idxs, keepIdx) ==
